@@ -147,6 +147,8 @@ def check(case):
         runcheck.check_step_statuses(res, "C02", ref, run)
         res.nontrivial = len(ref.calls) >= 2
         res.label("program")
+        if runcheck.typed_texts(prog):
+            res.label("one-text-several-step-types")
     else:
         raise ValueError(kind)
     return res
@@ -239,13 +241,13 @@ def explore(rec):
     rec.hyp("random-sequences", random_seq(), 4000 if quick else 120000)
     rec.hyp("continue-after-failed", cont_seq(), 800 if quick else 20000)
     rec.hyp("rerun-same-objects", rerun_case(), 1200 if quick else 30000)
-    rec.hyp("random-programs", gen.program_st(faults=False).map(lambda p: {"kind": "program", "program": p}),
+    rec.hyp("random-programs", gen.program_st(faults=False, typed=True).map(lambda p: {"kind": "program", "program": p}),
             1500 if quick else 40000)
 
 
 def required_labels(tier):
     req = ["depth:0", "depth:1", "depth:2", "row", "plain", "wip", "dry", "async", "cont", "rerun", "program",
-           "bg_placeholders", "first:convert_key"]
+           "bg_placeholders", "first:convert_key", "one-text-several-step-types"]
     for o in OUTCOMES:
         req += ["first:" + o, "middle:" + o, "last:" + o]
     return req
